@@ -48,7 +48,11 @@ def mixed_program(rng: random.Random, size="small", far=False, prefix="", counte
     # memory cells and latches (explicit module wires)
     n_mem = {"small": rng.randint(0, 1), "medium": rng.randint(1, 3), "large": rng.randint(2, 8)}[size]
     for m in range(n_mem):
-        mt = types.fresh()
+        try:
+            mt = types.fresh()
+        except RuntimeError:     # a large program uses more names than the pool holds: start over (types may repeat)
+            types = gen.Types(rng)
+            mt = types.fresh()
         mn = "%sm%d" % (P, m)
         prog.append(["mem", mn, mt])
         kind = rng.choice(["when", "latch_sr", "latch_rs", "counter"] if counters else ["when", "latch_sr", "latch_rs"])
@@ -61,7 +65,12 @@ def mixed_program(rng: random.Random, size="small", far=False, prefix="", counte
             val = rng.choice([["n", 1], ["n", rng.randint(2, 50)]])
             prog.append(["latch", mn, val, ["c", "<", ["v", a], ["n", rng.randint(0, 5)]],
                          ["c", ">", ["v", a], ["n", rng.randint(6, 15)]], "sr" if kind == "latch_sr" else "rs"])
-        prog.append(["sig", "%smr%d" % (P, m), ["p", ["b", "+", ["r", mn], ["n", rng.randint(0, 3)]], types.fresh()]])
+        try:
+            rt = types.fresh()
+        except RuntimeError:
+            types = gen.Types(rng)
+            rt = types.fresh()
+        prog.append(["sig", "%smr%d" % (P, m), ["p", ["b", "+", ["r", mn], ["n", rng.randint(0, 3)]], rt]])
         sigs.append("%smr%d" % (P, m))
     # user-placed entities, some far apart / negative
     n_ent = {"small": rng.randint(0, 3), "medium": rng.randint(2, 8), "large": rng.randint(5, 25)}[size]
